@@ -13,6 +13,7 @@ fork mode:   units run in real forked worker processes that are parked on a pipe
 """
 import math
 import os
+import stat
 import pickle
 import sys
 import traceback
@@ -122,10 +123,16 @@ class _Call:
             prev_actor = ctx.actor
             ctx.actor = actor
             w0, r0 = len(ctx.writes), len(ctx.reads)
+            offs0 = _fd_offsets(pool.inherited_fds) if pool.inherited_fds else None
             try:
                 res = pool._execute(self.func, unit, w)
             finally:
                 ctx.actor = prev_actor
+            if offs0:
+                offs1 = _fd_offsets(pool.inherited_fds)
+                moved = {fd for fd, o in offs0.items() if o is not None and offs1.get(fd) is not None and offs1[fd] != o}
+                if moved:
+                    self.__dict__.setdefault("fd_moved", {})[u] = moved
             # (creating a directory is idempotent - several tasks may makedirs(exist_ok=True) the same
             # level directory - and metadata calls do not change content: neither counts for I3)
             self.writes[u] = {p for (a, k, p) in ctx.writes[w0:] if a == actor and
@@ -353,6 +360,8 @@ class SimPool:
         self.workers = None
         self.worker_free = list(range(self.W))
         self._slot = {}
+        # open file descriptions the workers inherit: regular files of the case that are open right now
+        self.inherited_fds = _open_case_files(ctx) if type(self) is SimPool else {}
         ctx.pools.append(self)
         ctx.ev("pool", self.id, "W", self.W, "style", self.style, "eager", self.eager)
         ctx.stats[f"pool.W={self.W}"] += 1
@@ -580,6 +589,7 @@ class SimPool:
         if c.kind != "map":
             self._record_sig(c, n)
         _check_isolation(ctx, c)
+        _check_shared_offsets(ctx, c)
 
     def _record_sig(self, c, n):
         ctx = self.ctx
@@ -728,6 +738,64 @@ def _run_payload(pool, payload):
             # mapstar aborts the rest of the chunk at the first failure
             break
     return out
+
+
+def _open_case_files(ctx):
+    """{fd: (dev, ino)} of the regular files under the case's scratch tree that are open in this process."""
+    out = {}
+    try:
+        names = os.listdir("/proc/self/fd")
+    except OSError:
+        return out
+    for n in names:
+        try:
+            fd = int(n)
+            st = os.fstat(fd)
+            if not stat.S_ISREG(st.st_mode):
+                continue
+            if not os.readlink(f"/proc/self/fd/{fd}").startswith(ctx.scratch):
+                continue
+            out[fd] = (st.st_dev, st.st_ino)
+        except (OSError, ValueError):
+            continue
+    return out
+
+
+def _fd_offsets(fds):
+    out = {}
+    for fd, ident in fds.items():
+        try:
+            st = os.fstat(fd)
+            out[fd] = os.lseek(fd, 0, os.SEEK_CUR) if (st.st_dev, st.st_ino) == ident else None
+        except OSError:
+            out[fd] = None
+    return out
+
+
+def _check_shared_offsets(ctx, c):
+    """Workers are forks of the parent: a file the parent had open when the pool was created is ONE open file
+    description in all of them, with ONE offset.  Two units of a call that both move it (seek / read through
+    it) can run on two workers at once whenever W >= 2, and then each reads from wherever the other left
+    the offset.  Atomic-unit scheduling cannot show the resulting garbage, so the condition itself is
+    reported (like I3): >= 2 units of one call moved the offset of the same inherited descriptor, W >= 2."""
+    moved = c.__dict__.get("fd_moved")
+    if not moved or c.pool.W < 2:
+        return
+    byfd = {}
+    for u, fds in moved.items():
+        for fd in fds:
+            byfd.setdefault(fd, []).append(u)
+    for fd, us in sorted(byfd.items()):
+        if len(us) >= 2:
+            try:
+                path = ctx.rel(os.readlink(f"/proc/self/fd/{fd}"))
+            except OSError:
+                path = "?"
+            ctx.race_hazards = getattr(ctx, "race_hazards", [])
+            ctx.race_hazards.append({"call": c.site, "path": path, "units": sorted(us)[:4], "W": c.pool.W})
+            ctx.ev("shared-offset", c.site, path, len(us))
+            ctx.stats["probe.shared_offset_hazard"] += 1
+            return
 
 
 def _check_isolation(ctx, c):
